@@ -83,6 +83,7 @@ def cutoff(ex, s):
         lo, hi = c + ex.I, c + ex.I + ex.T
         if not any(lo <= p < hi for p in pongs):
             due.append(hi)
+    due += [c + ex.I + ex.T for c in getattr(s, 'pongs_unsolicited', [])]
     t = min(due) if due else getattr(s, 't_open', 0) + ex.I + ex.T
     # a read that has been waiting for I+T may time out (and end the session) at that moment;
     # with overlapping reads which of them is served first is unspecified
